@@ -59,7 +59,10 @@ CLAIMED["C01"] = dict(
          "once and in acceptance order (C01_once_in_order_without_fault - the Spec monitor itself; a first version of the monitor "
          "was refuted by a proved counterexample and corrected), nothing stays queued while connected unless a task is still going "
          "to drain (C01_nothing_pending_when_idle_connected, with tightness examples), frames are written without an intervening "
-         "suspension (C01_frames_contiguous). Liveness of 'as soon as' (suspended tasks do resume) is decided on recorded runs by "
+         "suspension (C01_frames_contiguous). Props/C01Loss.lean: no accepted message ever disappears without cause - every drop in the trace has a true "
+         "reason (C01_drops_justified: the Spec monitor dropsJustified on every reachable trace), every accepted id is still queued, has a write attempt or "
+         "was dropped (C01_accounted_strong), hence once the queue is empty - in particular in every healed state - each accepted message was written, failed a "
+         "write or was dropped for a true reason (C01_no_silent_loss_quiescent / _healed; the Spec monitor noSilentLoss with the heal marker inserted anywhere). Liveness of 'as soon as' (suspended tasks do resume) is decided on recorded runs by "
          "the monitor deliveredWhenPossible only (partial).",
     design_ref="DESIGN.md section 7, C01",
     technique="Lean 4 proof (trace invariants over all schedules) + trace validation + Spec monitors on recorded runs",
